@@ -32,7 +32,12 @@ def frag_case(name, r, payload, reqs, opts, rawmode):
     st = [Import("ipv4")]
     a, b = opts["src"], opts["dst"]
     kw = {k: v for k, v in opts.items() if k in ("id", "df", "evil", "ttl", "proto")}
-    st.append(Let("g", Call("ipv4::frag", IP(a), IP(b), _x=[STR(payload)], **kw)))
+    if opts.get("bound_payload"):
+        # the payload is one let-bound variable (used again afterwards, so the value is shared when the context is made)
+        st.append(Let("pl", STR(payload)))
+        st.append(Let("g", Call("ipv4::frag", IP(a), IP(b), _x=[Ref("pl")], **kw)))
+    else:
+        st.append(Let("g", Call("ipv4::frag", IP(a), IP(b), _x=[STR(payload)], **kw)))
     raws = []
     # (stored: every fragment is first bound to a variable, in request order; the variables are then emitted in an order
     # of their own -- the way a script sends fragments out of order or twice; records follow the emission order)
@@ -177,6 +182,8 @@ def run(ctx):
         r.shuffle(reqs)
         if i % 3 == 2:
             opts["stored"] = True
+        if i % 4 == 1:
+            opts["bound_payload"] = True
         c = frag_case("r%d" % i, r, payload, reqs, opts, None)
         c.gen["kind"] = "random-cover" if i % 3 != 2 else "random-cover, fragments stored and emitted in another order"
         cases.append(c)
